@@ -25,11 +25,18 @@ Aberrations == {"none", "defocus", "C30", "C12", "C21", "C23", "C32", "C34", "C4
                 "defocus_gaussian", "cs_series"}            \* parameter distributions: every member of the built ensemble is a probe
 Tilts == {"none", "tilted", "tilt_distribution", "tilt_pairs"}
 Positions == {"origin", "off_grid", "several", "outside_cell", "grid_scan"}
+Edits == {"energy", "extent", "gpts", "sampling", "cutoff", "defocus", "Cs", "tilt"}
+PlaneEdits == {"energy", "extent", "gpts", "sampling", "tilt"}
 Init == /\ \/ \E g \in Grids, cu \in Cutoffs, s \in BOOLEAN, ab \in Aberrations, t \in Tilts, p \in Positions, lz \in BOOLEAN :
                 c = [kind |-> "probe", gpts |-> g, cutoff |-> cu, soft |-> s, ab |-> ab, tilt |-> t, pos |-> p, lazy |-> lz]
            \/ \E g \in Grids, t \in Tilts, nm \in BOOLEAN, lz \in BOOLEAN :
                 c = [kind |-> IF nm THEN "plane_normalized" ELSE "plane_raw", gpts |-> g, cutoff |-> "mid", soft |-> TRUE, ab |-> "none", tilt |-> t,
                      pos |-> "origin", lazy |-> lz]
+           \* histories: one builder object is built, edited through its public attributes, and built again - the second build is normalised too
+           \/ \E e1 \in Edits, e2 \in Edits \cup {"none"}, g \in {<<16, 16>>, <<16, 21>>}, lz \in BOOLEAN, k \in {"probe", "plane_normalized", "plane_raw"} :
+                /\ (k # "probe" => e1 \in PlaneEdits /\ e2 \in PlaneEdits \cup {"none"})
+                /\ c = [kind |-> k, gpts |-> g, cutoff |-> "mid", soft |-> TRUE, ab |-> "cs_defocus", tilt |-> "tilted", pos |-> "several", lazy |-> lz,
+                        edits |-> IF e2 = "none" THEN <<e1>> ELSE <<e1, e2>>]
         /\ done = FALSE
 Next == ~done /\ done' = TRUE /\ UNCHANGED c
 Spec == Init /\ [][Next]_vars
